@@ -44,6 +44,27 @@ def signatures_of(unit_json):
     return out
 
 
+def _l2(d):
+    d = re.sub(r"<[^<>]*>", "", d)
+    return "::".join(d.rsplit("::", 2)[-2:])
+
+
+def _expand(callees, own, now, rec, depth=2):
+    """Callee set with calls to unrecorded helpers (an extracted part of the fn) replaced by what those helpers call."""
+    fresh = {}
+    for d in now:
+        if d not in rec and d != own:
+            fresh.setdefault(_l2(d), d)
+    out = set()
+    for c_ in callees:
+        h = fresh.get(_l2(c_))
+        if h is not None and depth > 0:
+            out |= set(_expand(now[h]["callees"], own, now, rec, depth - 1))
+        else:
+            out.add(c_)
+    return sorted(out)
+
+
 def compute_map(units):
     """units: list of loaded unit JSON objects -> {new def path: recorded def path} (high-confidence renames only) and notes."""
     if not os.path.exists(TABLE):
@@ -90,7 +111,7 @@ def compute_map(units):
                             out.add(head + "::" + seg_map.get(seg, seg))
                         return out
                     a = normc(sm["callees"], m.rsplit("::", 1)[-1])
-                    b = normc(sn["callees"], n.rsplit("::", 1)[-1])
+                    b = normc(_expand(sn["callees"], n, now, rec), n.rsplit("::", 1)[-1])
                     j = (len(a & b) / float(len(a | b))) if (a | b) else 1.0
                     cands.append((j, n))
                 cands.sort(reverse=True)
